@@ -27,6 +27,7 @@ use prost::bytes::{Buf, BufMut};
 use prost::encoding::{DecodeContext, WireType};
 use prost::{DecodeError, Message};
 use sozu::command::sessions::extract_messages;
+use sozu_command_lib::buffer::growable::Buffer;
 use sozu_command_lib::channel::{Channel, ChannelError};
 use sozu_command_lib::proto::command::{request::RequestType, Request, WorkerRequest};
 use sozu_command_lib::ready::Ready;
@@ -637,7 +638,7 @@ fn gen_valid(rng: &mut Rng, thorough: bool) -> Vec<String> {
     let mut partial_bw = false;
     let mut breads = 0;
     // blocking reads cost a real timeout (>= 100 ms) whenever the socket is empty: few cases only
-    let blocking_reader = rng.chance(1, 25);
+    let blocking_reader = rng.chance(1, 60);
     for _ in 0..n {
         let r = rng.below(100);
         let choice = match state {
@@ -730,6 +731,123 @@ fn gen_valid(rng: &mut Rng, thorough: bool) -> Vec<String> {
     }
     ops.push("drain 4000".into());
     ops
+}
+
+/// the `Buffer` API on its own, arguments unconstrained (Channel only calls it under guards)
+fn gen_buffer(rng: &mut Rng) -> Vec<String> {
+    let cap = *rng.pick(&[0u64, 1, 8, 10, 64, 100]);
+    let mut ops = vec![format!("buf {cap}")];
+    for _ in 0..rng.range(5, 60) {
+        let any = rng.range(0, 256);
+        let n = *rng.pick(&[0u64, 1, 2, 5, 8, 9, 30, 50, 64, 100, 101, 200, any]);
+        match rng.below(10) {
+            0..=3 => {
+                let bytes = rng.bytes(n.min(120) as usize);
+                ops.push(format!("bufw {}", segs(&bytes)));
+            }
+            4 | 5 => ops.push(format!("bufop consume {n}")),
+            6 => ops.push("bufop shift 0".into()),
+            7 => ops.push(format!("bufop grow {n}")),
+            8 => ops.push(format!("bufop shrink {n}")),
+            _ => {
+                if rng.chance(1, 4) {
+                    ops.push("bufop reset 0".into());
+                } else {
+                    ops.push(format!("bufop read {n}"));
+                }
+            }
+        }
+    }
+    ops
+}
+
+fn run_buffer(ops: &[String]) -> ImplRun {
+    use std::io::Read as _;
+    let mut run = ImplRun::default();
+    let mut b = Buffer::with_capacity(0);
+    let mut mirror: VecDeque<u8> = VecDeque::new();
+    let mut grew = false;
+    let line = |b: &Buffer, r: usize| format!("r={r} cap={} data={} space={} {}", b.capacity(), b.available_data(), b.available_space(), hex(b.data()));
+    for op in ops {
+        let ws: Vec<&str> = op.split_whitespace().collect();
+        let cap_before = b.capacity();
+        let out = match ws.as_slice() {
+            ["buf", c] => match c.parse::<usize>() {
+                Ok(c) => {
+                    b = Buffer::with_capacity(c);
+                    mirror.clear();
+                    line(&b, 0)
+                }
+                Err(_) => "bad-op".into(),
+            },
+            ["bufw", sg] => match unsegs(sg) {
+                Some(bytes) => {
+                    let n = b.write(&bytes).unwrap_or(0);
+                    mirror.extend(bytes[..n.min(bytes.len())].iter());
+                    line(&b, n)
+                }
+                None => "bad-op".into(),
+            },
+            ["bufop", what, n] => match n.parse::<usize>() {
+                Ok(n) => match *what {
+                    "consume" => {
+                        let r = b.consume(n);
+                        mirror.drain(..r.min(mirror.len()));
+                        line(&b, r)
+                    }
+                    "shift" => {
+                        b.shift();
+                        line(&b, 0)
+                    }
+                    "grow" => {
+                        let r = b.grow(n);
+                        grew |= r;
+                        line(&b, r as usize)
+                    }
+                    "shrink" => {
+                        let r = b.shrink(n);
+                        line(&b, r as usize)
+                    }
+                    "reset" => {
+                        b.reset();
+                        mirror.clear();
+                        line(&b, 0)
+                    }
+                    "read" => {
+                        let mut tmp = vec![0u8; n];
+                        let r = b.read(&mut tmp).unwrap_or(0);
+                        let want: Vec<u8> = mirror.drain(..r.min(mirror.len())).collect();
+                        if tmp[..r] != want[..] {
+                            run.oracle.push(("buffer-data-corrupted".into(), format!("read({n}) returned bytes that were not the oldest pending ones at `{op}`")));
+                        }
+                        line(&b, r)
+                    }
+                    _ => "bad-op".into(),
+                },
+                Err(_) => "bad-op".into(),
+            },
+            _ => "bad-op".into(),
+        };
+        // oracles written from the Buffer contract: data is a FIFO of the accepted bytes,
+        // offsets stay in bounds, capacity only moves in grow/shrink
+        let pending: Vec<u8> = mirror.iter().copied().collect();
+        if b.data() != &pending[..] {
+            run.oracle.push(("buffer-data-corrupted".into(), format!("data() differs from the bytes accepted and not yet consumed after `{op}`")));
+        }
+        if b.available_data().checked_add(b.available_space()).is_none_or(|t| t > b.capacity()) {
+            run.oracle.push(("offset-invariant".into(), format!("data {} + space {} > capacity {} after `{op}`", b.available_data(), b.available_space(), b.capacity())));
+        }
+        if b.capacity() != cap_before && !matches!(ws.get(1).copied(), Some("grow") | Some("shrink")) && ws[0] != "buf" {
+            run.oracle.push(("buffer-capacity-moved".into(), format!("capacity changed from {cap_before} to {} by `{op}`", b.capacity())));
+        }
+        run.tags.push(format!("op:{}", if ws[0] == "bufop" { ws[1] } else { ws[0] }));
+        run.out.push(out);
+    }
+    run.tags.push("buffer-case".into());
+    run.nontrivial = grew && ops.len() > 10;
+    let mut seen = std::collections::HashSet::new();
+    run.oracle.retain(|(c, _)| seen.insert(c.clone()));
+    run
 }
 
 /// walk a raw stream the way a length-prefixed reader can (skipping `under`
@@ -1011,6 +1129,9 @@ impl Area for ChannelArea {
         c
     }
     fn gen(&self, rng: &mut Rng, thorough: bool) -> Vec<String> {
+        if rng.chance(1, 14) {
+            return gen_buffer(rng);
+        }
         if rng.chance(1, 4) {
             gen_malformed(rng, thorough)
         } else {
@@ -1018,6 +1139,9 @@ impl Area for ChannelArea {
         }
     }
     fn run_impl(&self, ops: &[String]) -> ImplRun {
+        if ops.first().is_some_and(|o| o.starts_with("buf ")) {
+            return run_buffer(ops);
+        }
         let mut run = ImplRun::default();
         let mut rig: Option<Rig> = None;
         let mut errors_seen = 0u64;
